@@ -228,6 +228,37 @@ def st_Assign(ex, st, s, cx):
         if ty is not None:
             s2, r = new_empty(ex, st, ty)
             return f(s2, r)
+    if isinstance(v, ast.ListComp) and len(s.targets) == 1 and len(v.generators) == 1 and isinstance(s.targets[0], ast.Name):
+        # a comprehension for which the contract gives a loop invariant (ordinal compN, N-th comprehension of the function
+        # in source order) is executed as the loop it abbreviates:   t = [];  for x in xs:  [if c:]  t.append(e)
+        comps = sorted((n for n in ast.walk(cx.fi.node) if isinstance(n, ast.ListComp)), key=lambda n: (n.lineno, n.col_offset))
+        o_ = 'comp%d' % [id(n) for n in comps].index(id(v)) if any(n is v for n in comps) else None
+        c_ = cx.contract if cx.contract is not None else ex.reg.primary(cx.fi.key)
+        ty = target_decl_type(ex, st, s.targets[0], cx)
+        if o_ is not None and c_ is not None and o_ in (c_.loops or {}) and ty is not None and cx.root is cx:
+            if ty.kind == 'opt':
+                ty = ty.args[0]
+            g_ = v.generators[0]
+            tn = s.targets[0].id
+            app = ast.Expr(value=ast.Call(func=ast.Attribute(value=ast.Name(id=tn, ctx=ast.Load()), attr='append', ctx=ast.Load()),
+                                          args=[v.elt], keywords=[]))
+            body = [app]
+            for cond in reversed(g_.ifs):
+                body = [ast.If(test=cond, body=body, orelse=[])]
+            loop = ast.For(target=g_.target, iter=g_.iter, body=body, orelse=[])
+            for n_ in ast.walk(loop):
+                ast.copy_location(n_, v)
+            ast.fix_missing_locations(loop)
+            loop_spec(ex, cx, loop)
+            ex._loop_ords[id(cx.fi.node)][id(loop)] = o_
+            s2, r = new_empty(ex, st, ty)
+            outs = []
+            for kind_, s3, p_ in f(s2, r):
+                if kind_ == 'normal':
+                    outs += exec_block(ex, s3, [loop], cx)
+                else:
+                    outs.append((kind_, s3, p_))
+            return outs
     if isinstance(v, ast.ListComp) and len(s.targets) == 1 and len(v.generators) == 1 and not v.generators[0].ifs:
         ty = target_decl_type(ex, st, s.targets[0], cx)
         if ty is not None and ty.kind == 'opt':
